@@ -17,6 +17,8 @@
 //	     time, oldest first (rev: youngest first), each followed by a wait until everything is blocked again
 //	     with "hold":true the roll-over goroutine is held inside its critical section (where it reads the clock,
 //	     right after taking the mutex) while the remaining timers are delivered, until {"ev":"unhold"}
+//	| {"ev":"storm","ops":[{"id":remedy,"n":k,"quota":q,"w":ticks},...]}   (plugin) k simultaneous FIRST requests of a
+//	     remedy / strategy nobody has used yet (queue size 0: let through or refused at once) -> one "batch" event each
 //	| {"ev":"conc","ops":[enq,...]}      arrivals started together
 //	| {"ev":"race","ops":[enq,...]}      one tick, then arrivals started together, and only then the due timers (roll-over, TTLs)
 //
@@ -30,7 +32,9 @@ import (
 	"fmt"
 	"os"
 	"path/filepath"
+	"runtime"
 	"sync"
+	"sync/atomic"
 	"time"
 
 	"go.opentelemetry.io/otel/metric/noop"
@@ -79,6 +83,8 @@ type Op struct {
 	W     int64 `json:"w,omitempty"`
 	QSize int64 `json:"qsize,omitempty"`
 	Ops   []Op  `json:"ops,omitempty"`
+	// storm: number of simultaneous first requests
+	N int `json:"n,omitempty"`
 }
 
 type Script struct {
@@ -173,6 +179,11 @@ func (rn *runner) call(o Op, cfg Config, req *queue.Request) bool {
 		}
 		return ok
 	}
+	return rn.pluginCall("r", o, cfg)
+}
+
+// one request through StrategyBasedQueuePlugin.OnRequest for the remedy of the given name
+func (rn *runner) pluginCall(name string, o Op, cfg Config) bool {
 	if cfg.W%2 != 0 {
 		vh.Die("plugin mode needs windows of whole seconds (even ticks): w=%d", cfg.W)
 	}
@@ -183,7 +194,7 @@ func (rn *runner) call(o Op, cfg Config, req *queue.Request) bool {
 	rem := config.ScopedRemedy{
 		Scope: utils.ScopeEndpoint, Method: "GET", NormalizedURL: "api.test/x",
 		Remedy: &sharedConfig.Remedy{
-			Name: "r",
+			Name: name,
 			Config: sharedConfig.RemedyConfig{StrategyBasedQueue: &sharedConfig.StrategyBasedQueueConfig{
 				AllowedRequestCount: cfg.Quota,
 				WindowSizeInSeconds: int(cfg.W / 2),
@@ -343,6 +354,33 @@ func main() {
 						rn.start(o)
 					}
 					rn.quiet("conc")
+				case "storm":
+					// first use of per-remedy state: for every op, n goroutines released by a start barrier make the
+					// FIRST requests of a remedy (strategy) nobody has used yet, all at one instant.  The queue size
+					// is 0, so a request that is not let through is refused at once: one compact "batch" event each.
+					if rn.plugin == nil {
+						vh.Die("storm needs plugin mode")
+					}
+					for _, o := range e.Ops {
+						cfg := Config{Quota: o.Quota, W: o.W, QSize: 0, Mode: "plugin"}
+						var wg sync.WaitGroup
+						var rel atomic.Int64
+						startCh := make(chan struct{})
+						for g := 0; g < o.N; g++ {
+							wg.Add(1)
+							go func(g int) {
+								defer wg.Done()
+								<-startCh
+								runtime.Gosched()
+								if rn.pluginCall(o.ID, Op{ID: fmt.Sprintf("%s.%d", o.ID, g), Ttl: 2}, cfg) {
+									rel.Add(1)
+								}
+							}(g)
+						}
+						close(startCh)
+						wg.Wait()
+						tr.Add(vh.Ev{"ev": "batch", "name": o.ID, "n": o.N, "rel": rel.Load(), "quota": o.Quota, "w": o.W})
+					}
 				case "race": // the arrivals run before the timers of the new instant are delivered
 					rn.tickOnce(&now)
 					if e.Hold {
